@@ -1,7 +1,7 @@
 (* C06 — property theorems only.  Each is closed by [exact] of a lemma from the
    proof files; the driver pins the statements with [Check] and prints the
    assumptions on every run. *)
-From Yv Require Import Common.Base C06.Model C06.Spec C06.Proofs.
+From Yv Require Import Common.Base C06.Model C06.Spec C06.SpecCmd C06.Proofs.
 From Coq Require Ascii String.
 Import Coq.Strings.String.StringSyntax.
 
@@ -53,6 +53,15 @@ Theorem lex_word_print : forall inner : str -> res (str * str),
   lex_units inner (S (S f)) cx d (print_word (tilde_front w) ++ z) = Ok (w, z).
 Proof. exact lex_word_print. Qed.
 
+(* without any hypothesis on the parser of command substitutions (so in
+   particular for the model's own parser p_inner, with any fuel), for words
+   that contain no `$(...)` *)
+Theorem lex_word_print_nocs : forall (i1 i2 : str -> res (str * str)) f cx d s w r,
+  lex_units i1 f cx d s = Ok (w, r) -> nocs_word w = true -> d <> DDQuote ->
+  forall z, nolc z -> stops d z -> last_fo_word cx d w (hd z) ->
+  lex_units i2 (S (S f)) cx d (print_word (tilde_front w) ++ z) = Ok (w, z).
+Proof. exact lex_word_print_nocs_lemma. Qed.
+
 (* in particular the rest the lexer stopped at is such a text *)
 Theorem lex_word_print_same : forall inner : str -> res (str * str),
   (forall s content r0 r0', inner s = Ok (content, r0) -> skip_lc r0 = c_rparen :: r0' ->
@@ -92,6 +101,52 @@ Theorem lex_token_print : forall inner : str -> res (str * str),
        lex_token inner (S (S f)) (print_word (t_word t) ++ z)
        = Ok (mkToken (t_word t) (token_id_of (t_word t) z) (print_word (t_word t) ++ z), z)).
 Proof. exact lex_token_print_lemma. Qed.
+
+(* redirection placement: a redirection (optional file-descriptor number,
+   operator, operand) is read back from its printed form, in which the three
+   parts are adjacent; [w0] are the operand's units before the tilde
+   post-processing.  Here-document operators are outside the model. *)
+Theorem p_redir_print : forall inner : str -> res (str * str),
+  (forall s content r0 r0', inner s = Ok (content, r0) -> skip_lc r0 = c_rparen :: r0' ->
+     forall z, inner (content ++ c_rparen :: z) = Ok (content, c_rparen :: z)) ->
+  forall f s rd r,
+  p_redir (lex_token inner f) s = Ok (Some rd, r) ->
+  exists rop w0,
+    r_body rd = RNormal rop (tilde_front w0) /\
+    (ok_word w0 = true ->
+     forall z f', nolc z -> stops DToken z -> last_fo_word CWord DToken w0 (hd z) ->
+       (S (S f) <= f')%nat -> (13 <= f')%nat ->
+       p_redir (lex_token inner f') (print_redir rd ++ z) = Ok (Some rd, z)).
+Proof. exact p_redir_print_lemma. Qed.
+
+(* simple commands (simple_command.rs) without `$(...)`: if the loop of
+   simple_command.rs, started at any text [s], returns the assignments [a],
+   words [w] and redirections [rds], then it returns the same three lists
+   from the text printed by Display for SimpleCommand -- in whichever of its
+   four orders (redirections first when the command ends with a backslash;
+   assignments, words, redirections; redirections before a keyword; all
+   redirections but the last before a keyword when the last one ends with a
+   backslash) -- followed by any text [z] that starts with nothing, a blank
+   or an operator character ending a command, provided something followed the
+   command in [s] or no printed item ends with a backslash.  Covers the
+   recomputation of the expansion modes of declaration utilities, array
+   assignments, keywords after a redirection and IO numbers. *)
+Theorem p_simple_print : forall f s a w rds r z pre,
+  p_simple f None empty_b s = Ok (Some (a, w, rds), r) ->
+  r <> [] \/ nobs_res (a, w, rds) -> nocs_res (a, w, rds) -> follow z -> cmd_end z -> is_lead pre ->
+  exists F, forall f', (F <= f')%nat ->
+    p_simple f' None empty_b (pre ++ print_simple a w rds ++ z) = Ok (Some (a, w, rds), z).
+Proof. exact simple_print_lemma. Qed.
+
+(* the same one level up (command.rs): the printed simple command is read
+   back as that simple command -- not as a function definition or a compound
+   command *)
+Theorem p_command_print : forall f s a w rds r z pre,
+  p_command f s = Ok (Some (CSimple a w rds), r) ->
+  r <> [] \/ nobs_res (a, w, rds) -> nocs_res (a, w, rds) -> follow z -> cmd_end z -> is_lead pre ->
+  exists F, forall f', (F <= f')%nat ->
+    p_command f' (pre ++ print_command (CSimple a w rds) ++ z) = Ok (Some (CSimple a w rds), z).
+Proof. exact command_print_lemma. Qed.
 
 (* operator spacing: an operator is read back from its text whenever the next
    character does not turn it into a longer operator *)
